@@ -103,6 +103,12 @@ EXPRS = {
     "[x>1][[k,x]]": lambda d: d[d.x > 1][["k", "x"]],
     "[[k,x]][x>1]": lambda d: d[["k", "x"]][d.x > 1],
     "[x>1].assign(z=x+1)": lambda d: (lambda e: e.assign(z=e.x + 1))(d[d.x > 1]),
+    # reflected operators: the streaming operand is the *second* one (goes through partial_by_order)
+    "2-x": lambda d: 2 - d.x,
+    "2/x": lambda d: 2 / d.x,
+    "1+x": lambda d: 1 + d.x,
+    "2-(x*y)": lambda d: 2 - d.x * d.y,
+    "2**x": lambda d: 2 ** d.x,
 }
 for name, f in EXPRS.items():
     add("batch:" + name, "elementwise", f, mode="perbatch", cols=XY)
